@@ -18,6 +18,10 @@ use crate::{
 use std::collections::HashMap;
 use std::net::SocketAddr;
 
+/// Size of the receive buffer: servers fill their packets up to 1400 bytes, anything past the
+/// size given to `receive` is dropped.
+const PACKET_SIZE: usize = 2048;
+
 /// Send status request, and parse response into HashMap.
 /// This function will retry fetch on timeouts.
 fn get_server_values(
@@ -45,7 +49,7 @@ fn get_server_values_impl(socket: &mut UdpSocket) -> GDResult<HashMap<String, St
 
     // Parts can arrive in any order, all of them are needed.
     while final_part.map_or(true, |last| parts.len() < last) {
-        let data = socket.receive(None)?;
+        let data = socket.receive(Some(PACKET_SIZE))?;
         let mut bufferer = Buffer::<LittleEndian>::new(&data);
 
         let mut as_string = bufferer.read_string::<Utf8Decoder>(None)?;
